@@ -4,7 +4,8 @@
 //! The plan comes as arguments (one token each):
 //!   bin=<path> arg=<a>.. env=<K=v>.. cwd=<dir> uid=<n> gid=<n> pg=<n>
 //!   in=|out=|err=<inherit|null|pipe|fd:N>  pre=<code>..   (0 ok, >0 Os error, -1 error without code)
-//!   wait=try  (Child::try_wait loop instead of Child::wait)
+//!   wait=try  (Child::try_wait loop instead of Child::wait)  bulk=1 (Command::args / envs)
+//!   feed=<text> (written to the Child's stdin pipe before waiting)
 //! Everything is reported through markers (writes to descriptor -1) which the tracer logs together
 //! with the descriptor table of the marking task:
 //!   MARK:spawn:begin / MARK:returned:ok:<in>,<out>,<err> (descriptor numbers of the Child's pipes,
@@ -72,6 +73,8 @@ pub fn main() -> i32 {
     let (mut sin, mut sout, mut serr) = (None, None, None);
     let mut pre: Vec<i32> = Vec::new();
     let mut try_mode = false;
+    let mut bulk = false;
+    let mut feed: Option<String> = None;
     for a in tiny_std::env::args().skip(1) {
         let a = a.unwrap();
         let (k, v) = a.split_once('=').unwrap();
@@ -88,17 +91,24 @@ pub fn main() -> i32 {
             "err" => serr = stdio(v),
             "pre" => pre.push(num(v)),
             "wait" => try_mode = v == "try",
+            "bulk" => bulk = true,
+            "feed" => feed = Some(String::from(v)),
             _ => return 2,
         }
     }
     let bin = bin.unwrap();
     let bin_ref: &UnixStr = &bin;
     let mut cmd = Command::new(bin_ref).unwrap();
-    for s in &args {
-        cmd.arg(s);
-    }
-    for e in envs {
-        cmd.env(e);
+    if bulk {
+        cmd.args(args.iter().map(|s| -> &UnixStr { s }));
+        cmd.envs(envs.into_iter());
+    } else {
+        for s in &args {
+            cmd.arg(s);
+        }
+        for e in envs {
+            cmd.env(e);
+        }
     }
     if let Some(c) = &cwd {
         cmd.cwd(c);
@@ -156,8 +166,13 @@ pub fn main() -> i32 {
     }
     if let Ok(mut child) = res {
         m.clear();
+        if let (Some(f), Some(p)) = (&feed, child.stdin.as_mut()) {
+            use tiny_std::io::Write as _;
+            let _ = p.write(f.as_bytes());
+        }
         let waited = if try_mode {
-            // Child::try_wait until the child is gone
+            // Child::try_wait until the child is gone (stdin pipe closed first, like `wait` does)
+            drop(child.stdin.take());
             loop {
                 match child.try_wait() {
                     Ok(Some(st)) => break Ok(st),
